@@ -73,9 +73,12 @@ package prolog
 //@ func (*Solutions).Next
 //@   property C12
 //@   requires s != nil
+//@   requires[done-records-exhaustion] (gf(exhausted, s) == 0 || gf(exhausted, s) == 1) && (gf(exhausted, s) == 1 ==> s.done)
 //@   on-recv next gf(exhausted, s)
 //@   at-event send more requires[the-producer-is-still-listening] gf(exhausted, s) == 0
-//@   ensures[closed-means-false-without-communication] old(s.closed) ==> !result && ghost(chanops) == 0
+//@   ensures[done-records-exhaustion] gf(exhausted, s) == 1 ==> s.done
+//@   ensures[finished-means-false-without-communication] old(s.closed) || old(s.done) ==> !result && ghost(chanops) == 0
+//@   ensures[false-means-finished] !result ==> s.closed || s.done
 
 //@ func (*Solutions).Close
 //@   property C12
